@@ -99,9 +99,10 @@ theorem u32In_at (s : Slice) (hwf : s.WF) (a b : Nat) (v : UInt32) (rest : Bytes
 
 /-! ### the OpenFlow header -/
 
-/-- the 8-byte header at the front of the visible bytes is decoded field by field -/
+/-- the 8-byte header at the front of the visible bytes is decoded field by field (frame in right-nested form, as
+    `simp only [List.append_assoc]` leaves it) -/
 theorem header_at (recv : V) (s : Slice) (hwf : s.WF) (ver ty : UInt8) (ln : UInt16) (xid : UInt32) (rest : Bytes)
-    (h : s.bytes = [ver, ty] ++ be16 ln ++ be32 xid ++ rest) :
+    (h : s.bytes = [ver, ty] ++ (be16 ln ++ (be32 xid ++ rest))) :
     Header.unmarshal recv s = .ok (.obj "Header" [.num ver.toNat, .num ty.toNat, .num ln.toNat, .num xid.toNat]) := by
   have hl : 8 + rest.length = s.len := by
     rw [← bytes_length s hwf, h]; simp; omega
@@ -225,5 +226,10 @@ theorem copyInto_zeros (n : Nat) (src : Bytes) (h : n ≤ src.length) : copyInto
 
 theorem copyInto_nil (src : Bytes) : copyInto [] src = [] := by
   simp [copyInto]
+
+/-- a fixed-size field copied into a fresh buffer of its size: exactly the field's bytes -/
+theorem copy_field (n : Nat) (pre x post : Bytes) (k : Nat) (hpre : pre.length = k) (hx : x.length = n) :
+    copyInto (zeros n) ((pre ++ (x ++ post)).drop k) = x := by
+  rw [drop_pre pre _ k hpre, copyInto_zeros n _ (by simp; omega), take_pre x post n hx]
 
 end OFV.Sw
